@@ -2,8 +2,8 @@
    these definitions of /repo; tools/srcfacts.py regenerates their normal-form digests on every run (coq/Gen/Src_*.v).
    Statements only. *)
 From Coq Require Import List String.
-From ME Require Import Model.SrcExpected Gen.Src_common Gen.Src_map Gen.Src_flat_map Gen.Src_fbool Gen.Src_fzip Gen.Src_fbase Gen.Src_poll Gen.Src_throttle Gen.Src_retry Gen.Src_fmap Gen.Src_fcheck
-  Proofs.Src_ok_common Proofs.Src_ok_map Proofs.Src_ok_flat_map Proofs.Src_ok_fbool Proofs.Src_ok_fzip Proofs.Src_ok_fbase Proofs.Src_ok_poll Proofs.Src_ok_throttle Proofs.Src_ok_retry Proofs.Src_ok_fmap Proofs.Src_ok_fcheck.
+From ME Require Import Model.SrcExpected Gen.Src_common Gen.Src_map Gen.Src_flat_map Gen.Src_fbool Gen.Src_fzip Gen.Src_fbase Gen.Src_poll Gen.Src_throttle Gen.Src_retry Gen.Src_fmap Gen.Src_fcheck Gen.Src_timeout Gen.Src_fproxy Gen.Src_fnocancel Gen.Src_fapply Gen.Src_fsequence Gen.Src_ftimeout
+  Proofs.Src_ok_common Proofs.Src_ok_map Proofs.Src_ok_flat_map Proofs.Src_ok_fbool Proofs.Src_ok_fzip Proofs.Src_ok_fbase Proofs.Src_ok_poll Proofs.Src_ok_throttle Proofs.Src_ok_retry Proofs.Src_ok_fmap Proofs.Src_ok_fcheck Proofs.Src_ok_timeout Proofs.Src_ok_fproxy Proofs.Src_ok_fnocancel Proofs.Src_ok_fapply Proofs.Src_ok_fsequence Proofs.Src_ok_ftimeout.
 
 (* more_executors/_impl/common.py *)
 Theorem c02_source_common : Src_common.facts = expected_common.
@@ -38,6 +38,24 @@ Proof. exact src_fmap_ok. Qed.
 (* more_executors/_impl/futures/check.py *)
 Theorem c02_source_fcheck : Src_fcheck.facts = expected_fcheck.
 Proof. exact src_fcheck_ok. Qed.
+(* more_executors/_impl/timeout.py *)
+Theorem c02_source_timeout : Src_timeout.facts = expected_timeout.
+Proof. exact src_timeout_ok. Qed.
+(* more_executors/_impl/futures/proxy.py *)
+Theorem c02_source_fproxy : Src_fproxy.facts = expected_fproxy.
+Proof. exact src_fproxy_ok. Qed.
+(* more_executors/_impl/futures/nocancel.py *)
+Theorem c02_source_fnocancel : Src_fnocancel.facts = expected_fnocancel.
+Proof. exact src_fnocancel_ok. Qed.
+(* more_executors/_impl/futures/apply.py *)
+Theorem c02_source_fapply : Src_fapply.facts = expected_fapply.
+Proof. exact src_fapply_ok. Qed.
+(* more_executors/_impl/futures/sequence.py *)
+Theorem c02_source_fsequence : Src_fsequence.facts = expected_fsequence.
+Proof. exact src_fsequence_ok. Qed.
+(* more_executors/_impl/futures/timeout.py *)
+Theorem c02_source_ftimeout : Src_ftimeout.facts = expected_ftimeout.
+Proof. exact src_ftimeout_ok. Qed.
 
 Print Assumptions c02_source_common.
 Print Assumptions c02_source_map.
@@ -50,3 +68,9 @@ Print Assumptions c02_source_throttle.
 Print Assumptions c02_source_retry.
 Print Assumptions c02_source_fmap.
 Print Assumptions c02_source_fcheck.
+Print Assumptions c02_source_timeout.
+Print Assumptions c02_source_fproxy.
+Print Assumptions c02_source_fnocancel.
+Print Assumptions c02_source_fapply.
+Print Assumptions c02_source_fsequence.
+Print Assumptions c02_source_ftimeout.
